@@ -15,6 +15,8 @@ import (
 	"sync/atomic"
 	"testing"
 	"time"
+
+	"github.com/tencent/goom/internal/logger"
 )
 
 // Step is one action of a behaviour: op name, its arguments, and the required observables.
@@ -69,6 +71,9 @@ type Mismatch struct {
 // worlds is filled by the world_*.go files.
 var worlds = map[string]func() []World{}
 
+// debugSteps counts the steps performed while goom's debug logging was open (non-vacuity of C19).
+var debugSteps int
+
 func panicClass(msg string) string {
 	return msg
 }
@@ -77,6 +82,9 @@ func runBehaviour(w World, id int, steps []Step) *Mismatch {
 	w.Begin()
 	var mm *Mismatch
 	for i, st := range steps {
+		if logger.IsDebugOpen() {
+			debugSteps++
+		}
 		p := w.Do(st)
 		want := st.Str("panic")
 		if (want == "") != (p == "") || (want != "" && !strings.Contains(p, want)) {
@@ -138,6 +146,7 @@ func TestVerifReplay(t *testing.T) {
 	if in == "" {
 		t.Skip("no VERIF_IN")
 	}
+	quiet()
 	mk, ok := worlds[fam]
 	if !ok {
 		t.Fatalf("unknown world family %q", fam)
@@ -193,7 +202,7 @@ func TestVerifReplay(t *testing.T) {
 		nb++
 	}
 	atomic.StoreInt64(&cur, -1)
-	enc.Encode(map[string]interface{}{"summary": true, "behaviours": nb, "runs": nrun, "mismatches": nmm, "worlds": len(ws)})
+	enc.Encode(map[string]interface{}{"summary": true, "behaviours": nb, "runs": nrun, "mismatches": nmm, "worlds": len(ws), "debug_steps": debugSteps})
 }
 
 func catch(f func()) (msg string) {
